@@ -1861,6 +1861,96 @@ def path_handler(fn, e, env, hoist, pure):
     return None
 
 
+def slice_load_clip_plan(node: ast.FunctionDef, tree) -> ast.FunctionDef:
+    """What load_clip asks of the file and says about the result: the backward slice of its body on the locals handed to
+    load_audio(offset=…, samples=…) and to create_time_range(start_time=…, end_time=…, samplerate=…), returned as the tuple
+    (offset, samples, start_time, end_time).  `clip.start_time`, `clip.end_time` and `recording.samplerate` are the parameters.
+    Fail-closed: exactly one call of load_audio and one of create_time_range, each taking those keywords as plain local names."""
+    calls = {"load_audio": [], "create_time_range": []}
+    for z in ast.walk(node):
+        if isinstance(z, ast.Call) and isinstance(z.func, ast.Name) and z.func.id in calls:
+            calls[z.func.id].append(z)
+    if len(calls["load_audio"]) != 1 or len(calls["create_time_range"]) != 1:
+        raise Unsupported("load_clip does not call load_audio and create_time_range exactly once each")
+
+    def kw_name(call, k):
+        v = [x.value for x in call.keywords if x.arg == k]
+        if len(v) != 1 or not isinstance(v[0], ast.Name):
+            raise Unsupported(f"{call.func.id}: keyword {k} is not a plain local")
+        return v[0].id
+
+    la, tr = calls["load_audio"][0], calls["create_time_range"][0]
+    if any(k.arg is None for k in la.keywords + tr.keywords) or len(la.args) > 1 or tr.args:
+        raise Unsupported("load_audio / create_time_range called with * or positionally")
+    outs = [kw_name(la, "offset"), kw_name(la, "samples"), kw_name(tr, "start_time"), kw_name(tr, "end_time")]
+    sr_name = kw_name(tr, "samplerate")
+    if {k.arg for k in tr.keywords} != {"start_time", "end_time", "samplerate"}:
+        raise Unsupported("create_time_range takes other keywords")
+    body = list(node.body)
+    if not isinstance(body[-1], ast.Return):
+        raise Unsupported("load_clip does not end in a return")
+
+    def pure_local(st):
+        for z in ast.walk(st):
+            if isinstance(z, (ast.Await, ast.Yield, ast.YieldFrom, ast.NamedExpr, ast.Lambda, ast.Delete, ast.Raise, ast.Return, ast.For, ast.While,
+                              ast.With, ast.Try, ast.Import, ast.ImportFrom, ast.Global, ast.Nonlocal, ast.Assert, ast.FunctionDef, ast.ClassDef)):
+                return False
+            if isinstance(z, (ast.Attribute, ast.Subscript, ast.Starred)) and isinstance(z.ctx, (ast.Store, ast.Del)):
+                return False
+            if isinstance(z, ast.Call) and not (isinstance(z.func, ast.Name) and z.func.id in ("load_audio", "Path", "int", "float", "str")
+                                                or ast.unparse(z.func) in ("np.floor", "np.ceil", "math.floor")):
+                return False
+        return isinstance(st, (ast.Assign, ast.AnnAssign, ast.If, ast.Pass, ast.Expr))
+
+    needed = set(outs) | {sr_name}
+    kept = []
+    for st in reversed(body[:-1]):
+        if isinstance(st, ast.Expr) and isinstance(st.value, ast.Constant):
+            continue
+        writes = {z.id for z in ast.walk(st) if isinstance(z, ast.Name) and isinstance(z.ctx, ast.Store)}
+        if writes & needed:
+            if any(isinstance(z, ast.Call) and isinstance(z.func, ast.Name) and z.func.id == "load_audio" for z in ast.walk(st)):
+                raise Unsupported("a local the plan depends on comes from load_audio")
+            kept.append(st)
+            needed |= {z.id for z in ast.walk(st) if isinstance(z, ast.Name) and isinstance(z.ctx, ast.Load)}
+        elif not pure_local(st):
+            raise Unsupported(f"statement with possible effects before the return: {ast.unparse(st)[:60]}")
+    kept.reverse()
+
+    class _V(ast.NodeTransformer):
+        def visit_Attribute(self, a):
+            t = ast.unparse(a)
+            if t in ("clip.start_time", "clip.end_time", "recording.samplerate", "clip.recording.samplerate"):
+                return ast.Name(id=t.replace("clip.recording.", "recording.").replace(".", "_"), ctx=ast.Load())
+            if t == "clip.recording":
+                return ast.Name(id="recording", ctx=ast.Load())
+            self.generic_visit(a)
+            return a
+
+    kept = [_V().visit(st) for st in kept]
+    kept = [st for st in kept if not (isinstance(st, ast.Assign) and isinstance(st.targets[0], ast.Name) and st.targets[0].id == "recording"
+                                      and isinstance(st.value, ast.Name) and st.value.id == "recording")]
+    for st in kept:
+        for z in ast.walk(st):
+            if isinstance(z, ast.Name) and z.id in ("clip", "recording", "audio_dir"):
+                raise Unsupported(f"the plan reads {z.id} otherwise than through start_time / end_time / samplerate")
+    node.args = ast.arguments(posonlyargs=[], args=[], vararg=None, kwonlyargs=[], kw_defaults=[], kwarg=None, defaults=[])
+    node.body = kept + [ast.Return(value=ast.Tuple(elts=[ast.Name(id=n, ctx=ast.Load()) for n in outs], ctx=ast.Load()))]
+    node.decorator_list = []
+    return ast.fix_missing_locations(node)
+
+
+def floor_handler(fn, e, env, hoist, pure):
+    """int(np.floor(x)) -> Qfloor x (an integer)"""
+    if (isinstance(e, ast.Call) and isinstance(e.func, ast.Name) and e.func.id == "int" and len(e.args) == 1 and not e.keywords
+            and isinstance(e.args[0], ast.Call) and ast.unparse(e.args[0].func) in ("np.floor", "math.floor") and len(e.args[0].args) == 1 and not e.args[0].keywords):
+        t, ty = fn.expr(e.args[0].args[0], env, hoist, pure)
+        if ty == LIT:
+            t, ty = qlit(t), Q
+        return f"(Qround.Qfloor {fn.coerce(t, ty, Q)})", Z
+    return None
+
+
 def mat_handler(fn, e, env, hoist, pure):
     """cost_matrix[i, j] on the affinity matrix (a numpy array indexed by a pair of ints)"""
     if isinstance(e, ast.Subscript) and isinstance(e.value, ast.Name) and e.value.id in env and env[e.value.id][1] == ("M",) and isinstance(e.slice, ast.Tuple) and len(e.slice.elts) == 2:
@@ -2200,6 +2290,11 @@ def generate(src_root: Path) -> tuple[str, dict]:
     for nm, meth in (("recording_save_path", "assemble_aoef"), ("recording_load_path", "assemble_soundevent")):
         unit(nm, "io/aoef/recording.py", f"RecordingAdapter.{meth}",
              {"extra_params": {"audio_dir": "O(Pth)", "obj_path": "Pth"}, "custom": [path_handler], "rewrite": slice_path_field, "ret": "Pth"})
+
+    # ---- C15: what load_clip asks of the file (offset, samples) and says about the result (start and end of the time axis)
+    unit("load_clip_plan", "audio/io.py", "load_clip",
+         {"extra_params": {"clip_start_time": "Q", "clip_end_time": "Q", "recording_samplerate": "Q"}, "custom": [floor_handler],
+          "rewrite": slice_load_clip_plan, "ret": "T(Z,Z,Q,Q)"})
 
     # ---- C05 (and the bounds every geometry property goes through): geometry_to_shapely and compute_bounds
     rel = "geometry/conversion.py"
